@@ -24,7 +24,7 @@ def strategies():
 def fault_sets(n, pairs):
     out = []
     for i in range(n):
-        for pos in ("pre", "post"):
+        for pos in ("pre", "post", "stoppre"):
             out.append({i: pos})
     if pairs:
         for i, j in itertools.combinations(range(n), 2):
@@ -100,6 +100,14 @@ def judge(case):
     strat = strategies()[sname]
     # every other case selects the strategy together with an explicit log
     # level (the two-argument form of set_error_strategy)
+    if (len(prog) + len(driver) + len(sname)) % 3 == 0:
+        # the strategy as an equal-valued number of another type (an
+        # application enum.IntEnum member / a float): accepted by
+        # set_error_strategy, so it selects the same behaviour
+        import enum
+        AppStrategy = enum.IntEnum("AppStrategy", {n_: int(v_) for n_, v_
+                                                   in strategies().items()})
+        strat = AppStrategy[sname] if len(faults) % 2 else float(int(strat))
     sel = (len(prog) + len(faults) + len(driver) + len(sname)) % 4
     if sel:
         # (also the lowest level, 0 = logging.NOTSET, and a low one)
